@@ -105,7 +105,7 @@ pub fn run_batch<S: Sim>(sim: &S, cfg: &BatchConfig) -> BatchResult<S::Scenario>
                             let seed = run_seed(cfg.batch_seed, i);
                             let scenario = sim.generate(seed);
                             let mut log = Log::new(false);
-                            let result = sim.execute(&scenario, &mut log, &mut out.stats);
+                            let result = execute_guarded(sim, &scenario, &mut log, &mut out.stats);
                             let mut digest = log.digest();
                             out.events += log.events;
                             out.runs += 1;
@@ -173,6 +173,19 @@ pub fn run_batch<S: Sim>(sim: &S, cfg: &BatchConfig) -> BatchResult<S::Scenario>
     }
 }
 
+/// `sim.execute`, with a last line of defence: a panic that escapes the executor's own guards (a
+/// library call that nobody expected to panic) becomes a violation with a code of its own instead
+/// of taking the worker thread down.
+fn execute_guarded<S: Sim>(sim: &S, scenario: &S::Scenario, log: &mut Log, stats: &mut Stats) -> Result<bool, Violation> {
+    match crate::core::guarded(|| sim.execute(scenario, log, stats)) {
+        Ok(result) => result,
+        Err(panic) => Err(Violation::new(
+            &format!("{}.panic_outside_guarded_call", sim.id()),
+            format!("a call made by the simulator panicked outside its guarded sections: {panic}"),
+        )),
+    }
+}
+
 /// Execute once, recording the event log as text.
 pub fn execute_recorded<S: Sim>(
     sim: &S,
@@ -180,14 +193,14 @@ pub fn execute_recorded<S: Sim>(
 ) -> (Vec<String>, u64, Result<bool, Violation>) {
     let mut log = Log::new(true);
     let mut scratch = Stats::default();
-    let result = sim.execute(scenario, &mut log, &mut scratch);
+    let result = execute_guarded(sim, scenario, &mut log, &mut scratch);
     (log.lines().to_vec(), log.digest(), result)
 }
 
 fn fails_with<S: Sim>(sim: &S, scenario: &S::Scenario, code: &str) -> bool {
     let mut log = Log::new(false);
     let mut scratch = Stats::default();
-    matches!(sim.execute(scenario, &mut log, &mut scratch), Err(v) if v.code == code)
+    matches!(execute_guarded(sim, scenario, &mut log, &mut scratch), Err(v) if v.code == code)
 }
 
 /// Greedy minimisation: keep a candidate only if the same violation code is raised again.
